@@ -125,25 +125,33 @@ def analyse05(ck):
     # rejection guards of malformed shape inputs
     fw = e2.MethodView(ck, r"^qp_wormhole_prover::fill_witness$", "qp_wormhole_prover")
     md = prog.const_value("zk_merkle::MAX_DEPTH")
-    g = fw.rejects("Gt", lambda t: isinstance(t, tuple) and t[0] == "len" and P.param_path(t[1]) == "circuit_inputs.private.zk_merkle_siblings", lambda t: P.const_of(t) == md)
+    # IVL: the values of the depth that each boundary rejects must be exactly (MAX_DEPTH, ∞), in whatever comparison form — a guard that
+    # also turns away an honest depth <= MAX_DEPTH breaks completeness, one that lets MAX_DEPTH+1 through breaks the shape bound
+    def exact_bound(mv, var_pred, limit):
+        rs = guards.rejected_sets(mv.gt, var_pred)
+        rej = guards.union_intervals([iv for _, ivs, _ in rs for iv in ivs])
+        return rs, rej, (rej == [(limit + 1, None)] and all(g["outcome"] <= {"err"} for g, _, _ in rs))
+
+    sib_len = lambda path: (lambda t: isinstance(t, tuple) and t[0] == "len" and P.param_path(t[1]) == path)
+    g, rej, okg = exact_bound(fw, sib_len("circuit_inputs.private.zk_merkle_siblings"), md)
     others = [bb for bb, t in fw.body.calls() if t.get("name") in ("from", "try_from", "from_bytes", "fill_targets")]
-    ob.add({"C05"}, len(g) == 1 and g[0]["outcome"] <= {"err"} and all(fw.dom(fw.ok_succ(g[0]), bb) for bb in others) and len(others) >= 8, "CMP+DOM", "prover/depth-guard",
-           "fill_witness rejects depth > MAX_DEPTH(=%d) with Err before any conversion or target fill" % md, g[0]["loc"] if g else fw.loc0)
+    ob.add({"C05"}, okg and all(fw.ok_succ(x[0]) is not None and all(fw.dom(fw.ok_succ(x[0]), bb) for bb in others) for x in g) and len(others) >= 8, "CMP+DOM", "prover/depth-guard",
+           "fill_witness rejects exactly depth > MAX_DEPTH(=%d) with Err before any conversion or target fill (rejected set %s)" % (md, rej), g[0][0]["loc"] if g else fw.loc0)
     tf = e2.MethodView(ck, r"ZkMerkleProofData as core::convert::TryFrom<&.*CircuitInputs>>::try_from$", CIRC)
-    g1 = tf.rejects("Gt", lambda t: isinstance(t, tuple) and t[0] == "len" and P.param_path(t[1]) == "inputs.private.zk_merkle_siblings", lambda t: P.const_of(t) == md)
+    g1, rej1, ok1 = exact_bound(tf, sib_len("inputs.private.zk_merkle_siblings"), md)
     g2 = tf.rejects("Ne", lambda t: isinstance(t, tuple) and t[0] == "len" and "zk_merkle_positions" in T.show(t), lambda t: isinstance(t, tuple) and t[0] == "len" and "zk_merkle_siblings" in T.show(t))
     clones = [bb for bb, t in tf.body.calls() if t.get("name") == "clone"]
-    ok = len(g1) == 1 and len(g2) == 1 and all(g["outcome"] <= {"err"} for g in g1 + g2) and len(clones) >= 2 and all(tf.dom(tf.ok_succ(g2[0]), bb) and tf.dom(tf.ok_succ(g1[0]), bb) for bb in clones)
-    ob.add({"C05"}, ok, "CMP+DOM", "try_from/guards-before-clone", "ZkMerkleProofData::try_from rejects depth > MAX_DEPTH and positions.len() != siblings.len() before cloning either vector", tf.loc0,
-           [(T.show(g["cond"])[:100], g["fail_when"]) for g in tf.gt])
+    ok = ok1 and len(g2) == 1 and all(g_["outcome"] <= {"err"} for g_ in g2) and len(clones) >= 2 and all(tf.dom(tf.ok_succ(g2[0]), bb) and all(tf.dom(tf.ok_succ(x[0]), bb) for x in g1) for bb in clones)
+    ob.add({"C05"}, ok, "CMP+DOM", "try_from/guards-before-clone", "ZkMerkleProofData::try_from rejects exactly depth > MAX_DEPTH (rejected set %s) and positions.len() != siblings.len() before cloning either vector" % rej1, tf.loc0,
+           [(T.show(g_["cond"])[:100], g_["fail_when"]) for g_ in tf.gt])
     ft = e2.MethodView(ck, r"ZkMerkleProofData as .*CircuitFragment>::fill_targets$", CIRC)
-    g3 = ft.rejects("Gt", lambda t: "positions" in T.show(t, maxdepth=6), lambda t: P.const_of(t) == 3)
+    g3, rej3, ok3 = exact_bound(ft, lambda t: "positions" in T.show(t, maxdepth=6) and not (isinstance(t, tuple) and t[0] == "len"), 3)
     setpos = [e for e in ft.effects if e.raw.get("name") == "set_target" and "positions" in T.show(e.args[1], maxdepth=5)]
-    ok = len(g3) == 1 and g3[0]["outcome"] <= {"err"} and len(setpos) == 1 and ft.dom(ft.ok_succ(g3[0]), setpos[0].bb)
-    ob.add({"C05"}, ok, "CMP+DOM", "fill_targets/position-guard", "fill_targets rejects a position > 3 with Err before assigning the position target", g3[0]["loc"] if g3 else ft.loc0)
-    g4 = ft.rejects("Gt", lambda t: P.param_path(t) == "self.depth", lambda t: P.const_of(t) == md)
+    ok = ok3 and len(setpos) == 1 and all(ft.dom(ft.ok_succ(x[0]), setpos[0].bb) for x in g3)
+    ob.add({"C05"}, ok, "CMP+DOM", "fill_targets/position-guard", "fill_targets rejects exactly a position > 3 with Err before assigning the position target (rejected set %s)" % rej3, g3[0][0]["loc"] if g3 else ft.loc0)
+    g4, rej4, ok4 = exact_bound(ft, lambda t: P.param_path(t) == "self.depth", md)
     g5 = ft.rejects("Ne", lambda t: isinstance(t, tuple) and t[0] == "len" and P.param_path(t[1]) == "self.positions", lambda t: isinstance(t, tuple) and t[0] == "len" and P.param_path(t[1]) == "self.siblings")
-    ob.add({"C05"}, len(g4) == 1 and len(g5) == 1 and all(g["outcome"] <= {"err"} for g in g4 + g5), "CMP", "fill_targets/shape-guards", "fill_targets re-checks depth <= MAX_DEPTH and positions/siblings length equality (Err)", ft.loc0)
+    ob.add({"C05"}, ok4 and len(g5) == 1 and all(g_["outcome"] <= {"err"} for g_ in g5), "CMP", "fill_targets/shape-guards", "fill_targets re-checks exactly depth <= MAX_DEPTH (rejected set %s) and positions/siblings length equality (Err)" % rej4, ft.loc0)
     # the verifier loader part is shared with C17
     from . import loaders
     lo = loaders.analyse(ck)
